@@ -554,6 +554,82 @@ fn json_roundtrip(rep: &Report, bound: u32) {
     }
 }
 
+/// Well-framed payloads that the codec rejects ("frames or errors, never a panic; nothing
+/// dropped"): every frame yields exactly one item -- the document or a decode error -- in order,
+/// and the frames behind an undecodable one are still delivered.
+fn json_undecodable(rep: &Report, bound: u32) {
+    let good = [Doc { s: "a".into(), n: 1 }, Doc { s: "".into(), n: 2 }];
+    let raw: Vec<(Vec<u8>, Option<Doc>)> = vec![
+        (serde_json::to_vec(&good[0]).unwrap(), Some(good[0].clone())),
+        (serde_json::to_vec(&good[1]).unwrap(), Some(good[1].clone())),
+        (b"{".to_vec(), None),
+        (b"".to_vec(), None),
+        (b"[1]".to_vec(), None),
+    ];
+    let mut lists: Vec<Vec<usize>> = Vec::new();
+    for a in 0..raw.len() {
+        lists.push(vec![a]);
+        for b in 0..raw.len() {
+            lists.push(vec![a, b]);
+            for c in 0..2 {
+                lists.push(vec![a, b, c]);
+            }
+        }
+    }
+    for l in lists.into_iter().filter(|l| l.iter().any(|i| raw[*i].1.is_none())) {
+        for line in [false, true] {
+            let frames: Vec<Vec<u8>> = l.iter().map(|i| raw[*i].0.clone()).collect();
+            let want: Vec<Option<Doc>> = l.iter().map(|i| raw[*i].1.clone()).collect();
+            let name = if line { "json-undecodable[CharDelimited]" } else { "json-undecodable[LengthDelimited]" };
+            explore_case(
+                rep,
+                name,
+                &format!("{l:?}"),
+                bound.min(2),
+                &|env| {
+                    let mut e = env.borrow_mut();
+                    e.allow_err = false;
+                    e.allow_zero = false;
+                    e.allow_interrupt = false;
+                    e.allow_pending = true;
+                },
+                &|env| {
+                    let quiet = new_env(Chooser::new(vec![], 0), 400);
+                    let stream = if line { encode(&quiet, CharDelimited::<'\n'>::new(), &frames)? } else { encode(&quiet, LengthDelimited::new(), &frames)? };
+                    let r = ScriptReader::new(env, &stream);
+                    let mut got: Vec<Option<Doc>> = Vec::new();
+                    macro_rules! drain {
+                        ($fr:expr) => {{
+                            let mut fr = $fr;
+                            loop {
+                                match run_polls(fr.next(), 100) {
+                                    Some(Some(Ok(d))) => got.push(Some(d)),
+                                    Some(Some(Err(_))) => got.push(None),
+                                    Some(None) => break,
+                                    None => return fail("livelock", ""),
+                                }
+                                if got.len() > want.len() + 2 {
+                                    return fail("endless", format!("{got:?}"));
+                                }
+                            }
+                        }};
+                    }
+                    if line {
+                        drain!(Framed::symmetric::<Doc>(SerdeJsonCodec::new(), CharDelimited::<'\n'>::new()).with_reader(r));
+                    } else {
+                        drain!(Framed::symmetric::<Doc>(SerdeJsonCodec::new(), LengthDelimited::new()).with_reader(r));
+                    }
+                    if got != want {
+                        let show = |v: &Vec<Option<Doc>>| v.iter().map(|d| if d.is_some() { "doc" } else { "error" }).collect::<Vec<_>>().join(",");
+                        return fail("items-differ:after-undecodable-frame", format!("got [{}], one item per frame expected: [{}]", show(&got), show(&want)));
+                    }
+                    Ok(format!("{}", got.iter().filter(|d| d.is_none()).count()))
+                },
+            );
+        }
+    }
+}
+
 pub fn run(args: Args) {
     let rep = Report::new("C13", args.tier);
     let t = args.tier;
@@ -645,6 +721,7 @@ pub fn run(args: Args) {
         }
     }));
     items.push(Box::new(move |rep: &Report| json_roundtrip(rep, bound)));
+    items.push(Box::new(move |rep: &Report| json_undecodable(rep, bound)));
 
     // (ii) hostile input
     let alpha6: &'static [u8] = &[0x00, 0x01, 0x7f, 0x80, 0xff, b'\n'];
